@@ -61,7 +61,7 @@ def floors(tier):
     return {"A:runs": 300 * k, "A:rows_compared": 8000 * k, "A:csv_cells_compared": 50000 * k, "A:runs_with_skipped_in_batch": 40 * k,
             "A:best_config_decided": 250 * k, "A:loaded_best_config_decided": 250 * k, "A:stats_trials_compared": 1500 * k,
             "A:resumed_with_changed_config": 30 * k, "A:trials_without_results": 20 * k,
-            "A:runs_aborted_by_failure_limit": 10 * k, "A:continued_at_other_path": 60 * k, "A:best_config_per_metric_decided:mode_differs_from_first_metric": 30 * k,
+            "A:runs_aborted_by_failure_limit": 10 * k, "A:runs_with_nan_gaps_in_the_optimised_metric": 30 * k, "A:continued_at_other_path": 60 * k, "A:best_config_per_metric_decided:mode_differs_from_first_metric": 30 * k,
             "B:histories": 2000 * k, "B:histories_with_nan": 200 * k, "B:histories_with_ties": 100 * k, "B:stats_compared": 8000 * k,
             "B:best_decided": 1500 * k, "B:best_decided_with_non_numeric_reports": 60 * k}
 
@@ -185,10 +185,22 @@ def run_part_a(spec, o):
             d["loss2"] = ((t * 31 + l * 17) % 101) / 101.0
         return d
 
+    value_fn = None
+    if not sim and kind in ("fifo_random", "fifo_grid") and random.Random(spec["seed"] + 9).random() < 0.5:
+        # gaps: some reports carry NaN for the optimised metric (e.g. a validation metric computed every other epoch)
+        base_v = gen.Curves(p.get("curves", "continuous"), spec["seed"] + 1, p["max_t"])
+        gap_seed = spec["seed"] * 17 + 3
+
+        def value_fn(t, l, cfg=None):
+            if random.Random(gap_seed + t * 131 + l).random() < 0.3:
+                return float("nan")
+            return base_v(t, l, cfg)
+
+        o.count("A:runs_with_nan_gaps_in_the_optimised_metric")
     if sim:
         r = simrun.SimRun(p, spec["seed"])
     else:
-        r = simrun.ProcRun(p, spec["seed"], extra_fn=extra_fn)
+        r = simrun.ProcRun(p, spec["seed"], extra_fn=extra_fn, value_fn=value_fn)
     r.run()
     if r.exc is not None:
         n_err = sum(1 for e in r.rec.events if e[1] == "s.on_trial_error.call")
